@@ -58,6 +58,10 @@ CLAIMS = {
     text="Decides structural conditions of lossless bundling for all element sequences: rtosc_bundle and append_bundle write only under an exact capacity guard whose compared amount equals the amount written; length and time-tag codecs are big-endian; writer, size pre-computation and the four independent walkers step by size+4 for every size; magic bytes and header offsets (0/8/16) agree between writer and every reader; prefix value, copy length and advance are one variable measured from the copied message.",
     note="Trusted: clang AST/-O0 IR, sa/fdeval.py, sa/rules/guard.py. Element sizes are assumed to be multiples of 4. Byte identity of nested elements is not decided.",
     ref="DESIGN.md 2 C08"),
+ "C17": dict(cat="other", tech="writer/reader agreement: the metadata iterator (MetaContainer::begin, MetaIterator constructor and operator++, metaiterator_advance) is evaluated finite-domain on its AST over every metadata block the port macros produce (macro expansions read off witness units as string literals with embedded NULs) plus hand-made corner cases, and compared with the pairs the block spells; shape rule for find/operator[]",
+    text="Narrow claim: on every metadata block that the library's own macros produce (23 metadata macros expanded alone, the complete blocks of 41 macro-generated ports) and on hand-made blocks for the corner cases the statement names (values containing ':' and '=', repeated keys, entries without value, empty value, no leading ':'), the iterator yields in order exactly the (key, value) pairs the block spells; find() and operator[] range over the container and answer with the first entry whose key compares equal. Not decided: arbitrary byte strings as keys and values, MetaContainer::length.",
+    note="Trusted: clang AST, sa/fdeval.py, witness/meta_matrix.cpp and witness/sugar_matrix.cpp. The evaluation covers the listed blocks only.",
+    ref="DESIGN.md 2 C17"),
  "C01": dict(cat="other", tech="AST table extraction + finite-domain evaluation: per-tag payload tables of 7 sibling codec functions vs the OSC 1.0 table, big-endian shift sequences, alignment-step tables over pos mod 4, cursor-offset discipline, va_arg/union-member agreement, argument-slot discipline of rtosc_avmessage against rtosc_amessage's over all tag sequences up to length 3",
     text="Decides structural necessary conditions of the wire format for every input: each of the seven hand-written functions that carry a private copy of the type-tag table assigns every tag its OSC 1.0 payload class; every numeric emit/extract sequence is big-endian on consecutive bytes; every alignment step computes the table of its field kind (evaluated over pos mod 4, not matched textually); type-string loops classify the element they tested and skip exactly '[' and ']'; rtosc_v2args reads the promoted C type into the union member the writer reads; the wrappers share one decoder/forward buffers unchanged. It does not decide the bytes for particular values - that part of the property quantifies over run-time values.",
     note="Trusted: clang AST, sa/fdeval.py, idiom recognisers in sa/rules/codec.py (an unknown idiom is exit 2, not a pass), the OSC tag table in sa/props/C01.py.",
@@ -73,7 +77,6 @@ CLAIMS = {
 }
 NA = {
  "C15": "undo history: position/size bookkeeping over operation histories and a wall-clock merge window; no clause is a code shape (the /undo_change event format is decided on the producer side by C14 R14d)",
- "C17": "metadata read-back is a property of a hand-written NUL/':'/'=' scanner over all byte strings; deciding it means executing the iterator on inputs, which is outside static analysis (the producer side alone is not a necessary condition of the iterator's behaviour)",
  "C18": "collapsePath / apropos / path_search correctness lives in run-time index and string values (in-place pointer arithmetic, recursive partial matching, sort-and-filter over pairs); no structural necessary condition could be named without freezing a code fragment",
  "C20": "which controller drives which callback is a function of the whole map/unmap/CC history over immutable snapshots rebuilt per step; no clause is visible in the code's shape",
 }
